@@ -9,41 +9,41 @@ W = {"n_quick": 160, "n_thorough": 4000}
 
 PROPS = {
     "C01": {"title": "serialise-then-parse round trip", "level": "other",
-            "sections": [("frames", {}), ("pyvc", {}), ("atnk", {"groups": ["canon_lex", "lexer_eq"]}), ("lean", {"files": ["Fold.lean"]}), ("witness", W)],
+            "sections": [("frames", {}), ("pyvc", {}), ("atnk", {"groups": ["canon_lex", "lexer_eq", "identity", "parser_eq", "codegen_sim"]}), ("lean", {"files": ["Fold.lean"]}), ("witness", W)],
             "explanation": "contracts on serialize/_value_to_blackbird/numpy_to_blackbird and on the load side (PyVC, discharged by z3) + complete lexical lemmas on the "
                            "shipped lexer DFA; parse-back of serializer output by the shipped parser is a bounded stand-in (witness family roundtrip)"},
     "C02": {"title": "loading yields the program the script denotes", "level": "proof",
-            "sections": [("pyvc", {}), ("frames", {}), ("atnk", {"groups": ["identity"]}), ("lean", {"files": ["Walk.lean"]}), ("witness", W)]},
+            "sections": [("pyvc", {}), ("frames", {}), ("atnk", {"groups": ["identity", "lexer_eq", "parser_eq", "codegen_sim"]}), ("lean", {"files": ["Walk.lean"]}), ("witness", W)]},
     "C03": {"title": "expressions evaluate to their arithmetic value", "level": "proof",
-            "sections": [("frames", {}), ("pyvc", {}), ("atnk", {"groups": ["precedence", "literals"]}), ("witness", W)]},
+            "sections": [("frames", {}), ("pyvc", {}), ("atnk", {"groups": ["precedence", "literals", "identity", "lexer_eq", "parser_eq", "codegen_sim"]}), ("witness", W)]},
     "C04": {"title": "instantiating a template equals substitution", "level": "other",
             "explanation": "contracts on __call__/_bind_parameters/exitProgram/parameters/is_template and on the load side are discharged (PyVC, z3) and the frame/"
                            "aliasing clauses of __call__ are decided; but the spec of exitArrayvar (parameter positions inside arrays) mirrors the code's "
                            "flatten / re-insert / reshape algorithm -- that this algorithm yields the written layout is the Lean lemma reinsert_split plus assumed "
                            "NumPy contracts, and SUBST(EVAL_sym(e)) = EVAL(e[subst]) rests on A-sympy; the end-to-end equality with the substituted text is a "
                            "bounded stand-in (witness families template_subst, template_subst_x)",
-            "sections": [("pyvc", {}), ("frames", {}), ("lean", {"files": ["Fold.lean"]}), ("witness", W)]},
+            "sections": [("pyvc", {}), ("frames", {}), ("lean", {"files": ["Fold.lean"]}), ("atnk", {"groups": ["identity", "lexer_eq", "parser_eq", "codegen_sim"]}), ("witness", W)]},
     "C05": {"title": "declared types, array layout and shape", "level": "other",
             "explanation": "contracts on exitExpressionvar / exitArrayvar / the ArrayIdx branch of _expression are discharged (PyVC, z3): casts, ragged-row and shape "
                            "rejection, row-major index; the spec of exitArrayvar mirrors the code's flatten / re-insert / reshape(rows, -1) algorithm, and that it "
                            "produces element (r, c) = c-th entry of the r-th row is carried by the Lean lemmas flatten_get_rowmajor / reinsert_split under the "
                            "assumed NumPy contracts (A-numpy-array); layout end-to-end is a bounded stand-in (witness families decl_types, decl_types_x)",
-            "sections": [("pyvc", {}), ("frames", {}), ("lean", {"files": ["Fold.lean"]}), ("witness", W)]},
+            "sections": [("pyvc", {}), ("frames", {}), ("lean", {"files": ["Fold.lean"]}), ("atnk", {"groups": ["identity", "lexer_eq", "parser_eq", "codegen_sim"]}), ("witness", W)]},
     "C06": {"title": "a for-loop equals its unrolling", "level": "proof",
-            "sections": [("frames", {}), ("pyvc", {}), ("lean", {"files": ["Walk.lean"]}), ("witness", W)]},
+            "sections": [("frames", {}), ("pyvc", {}), ("lean", {"files": ["Walk.lean"]}), ("atnk", {"groups": ["identity", "lexer_eq", "parser_eq", "codegen_sim"]}), ("witness", W)]},
     "C07": {"title": "calling an included program equals inlining it", "level": "proof",
-            "sections": [("pyvc", {}), ("frames", {}), ("witness", {"n_quick": 60, "n_thorough": 800})]},
+            "sections": [("pyvc", {}), ("frames", {}), ("atnk", {"groups": ["identity", "lexer_eq", "parser_eq", "codegen_sim"]}), ("witness", {"n_quick": 60, "n_thorough": 800})]},
     "C08": {"title": "measured-register arguments become transforms", "level": "proof",
-            "sections": [("pyvc", {}), ("frames", {}), ("witness", W)]},
+            "sections": [("pyvc", {}), ("frames", {}), ("atnk", {"groups": ["identity", "lexer_eq", "parser_eq", "codegen_sim"]}), ("witness", W)]},
     "C09": {"title": "API-built programs serialise to valid, equivalent scripts", "level": "other",
-            "sections": [("frames", {}), ("pyvc", {}), ("atnk", {"groups": ["canon_lex"]}), ("lean", {"files": ["Fold.lean"]}), ("witness", W)],
+            "sections": [("frames", {}), ("pyvc", {}), ("atnk", {"groups": ["canon_lex", "identity", "lexer_eq", "parser_eq", "codegen_sim"]}), ("lean", {"files": ["Fold.lean"]}), ("witness", W)],
             "explanation": "as C01, starting from API-built programs; the parse-back of the emitted text is bounded (witness family api_serialize)"},
     "C10": {"title": "ungrammatical scripts raise BlackbirdSyntaxError at the offending token", "level": "proof",
             "sections": [("frames", {}), ("pyvc", {}), ("atnk", {"groups": ["dominance", "identity", "lexer_eq", "parser_eq", "codegen_sim"]}), ("witness", W)]},
     "C11": {"title": "ill-formed but grammatical programs are refused", "level": "proof",
-            "sections": [("frames", {}), ("pyvc", {}), ("witness", W)]},
+            "sections": [("frames", {}), ("pyvc", {}), ("atnk", {"groups": ["identity", "lexer_eq", "parser_eq", "codegen_sim"]}), ("witness", W)]},
     "C12": {"title": "each load is independent of every earlier load", "level": "proof",
-            "sections": [("pyvc", {}), ("frames", {}), ("lean", {"files": ["Walk.lean"]}), ("witness", {"n_quick": 25, "n_thorough": 150})]},
+            "sections": [("pyvc", {}), ("frames", {}), ("lean", {"files": ["Walk.lean"]}), ("atnk", {"groups": ["identity", "lexer_eq", "parser_eq", "codegen_sim"]}), ("witness", {"n_quick": 25, "n_thorough": 150})]},
     "C13": {"title": "read-only operations leave programs unchanged; instances independent", "level": "proof",
             "sections": [("frames", {}), ("pyvc", {}), ("witness", W)]},
     "C14": {"title": "shipped lexers/parsers recognise exactly the language of blackbird.g4", "level": "other",
@@ -55,7 +55,7 @@ PROPS = {
             "explanation": "contracts on the p-registration branch of exitArrayvar, the VariableLabel branch of _expression, exitProgram, is_ptype/_is_ptype, "
                            "_value_to_blackbird and serialize are discharged (PyVC, z3); the tdm declaration block of serialize is specified by a spec that mirrors the "
                            "code, and the re-load of the emitted declarations by the shipped parser is a bounded stand-in (witness families tdm, tdm_x, roundtrip_x)",
-            "sections": [("frames", {}), ("pyvc", {}), ("witness", W)]},
+            "sections": [("frames", {}), ("pyvc", {}), ("atnk", {"groups": ["identity", "lexer_eq", "parser_eq", "codegen_sim"]}), ("witness", W)]},
     "C16": {"title": "the dependency graph is an order-respecting DAG", "level": "proof",
             "sections": [("frames", {}), ("pyvc", {}), ("lean", {"files": ["Graph.lean", "GridEdges.lean"]}), ("witness", W)]},
     "C17": {"title": "template matching inverts instantiation", "level": "other",
@@ -63,10 +63,10 @@ PROPS = {
             "explanation": "prechecks and argument loop of match_template under assumed contracts for DiGraphMatcher/solve (heavy assumptions, listed); reordering "
                            "isomorphism lemma G4 in Lean; the end-to-end left-inverse is a bounded stand-in (witness family template_match)"},
     "C18": {"title": "layout does not change the program", "level": "other",
-            "sections": [("frames", {}), ("atnk", {"groups": ["layout", "lexer_eq"]}), ("pyvc", {}), ("witness", W)],
+            "sections": [("frames", {}), ("atnk", {"groups": ["layout", "lexer_eq", "identity", "parser_eq", "codegen_sim"]}), ("pyvc", {}), ("witness", W)],
             "explanation": "complete lexical lemmas LX1-LX4 on the shipped lexer DFA + NEWLINE-stutter lemma per rule on the shipped parser ATN (sufficient condition) + "
                            "contracts showing handlers read only content children; independence of ANTLR's chosen derivation from NEWLINE attachment is assumed "
                            "(A-layout-tree) with a bounded stand-in (witness family layout_edits)"},
     "C19": {"title": "deterministic across runs and hash seeds", "level": "proof",
-            "sections": [("frames", {}), ("pyvc", {}), ("witness", {"n_quick": 24, "n_thorough": 200})]},
+            "sections": [("frames", {}), ("pyvc", {}), ("atnk", {"groups": ["identity", "lexer_eq", "parser_eq", "codegen_sim"]}), ("witness", {"n_quick": 24, "n_thorough": 200})]},
 }
